@@ -57,10 +57,11 @@ fn universe(nums: &[&str], ids: &[&str], max_list: usize, builds: &[&str]) -> Ve
     }
     texts
         .into_iter()
-        .map(|t| {
-            let z = SemVer::from_str(&t).unwrap_or_else(|e| machinery_error(&format!("universe member {t:?} rejected by the real parser: {e}")));
+        .filter_map(|t| {
+            // a valid version that the real parser refuses is a verdict about zerv, not a machinery problem
+            let z = match SemVer::from_str(&t) { Ok(z) => z, Err(e) => { REJECTED.lock().unwrap().push((t.clone(), e.to_string())); return None; } };
             let r = rsv::parse(&t).unwrap_or_else(|| machinery_error(&format!("universe member {t:?} rejected by the model")));
-            V { text: t, z, r }
+            Some(V { text: t, z, r })
         })
         .collect()
 }
@@ -178,6 +179,8 @@ fn check_max_tag(ctx: &Ctx, u: &[&V]) -> Stats {
         .reduce(Stats::default, Stats::merge)
 }
 
+static REJECTED: std::sync::Mutex<Vec<(String, String)>> = std::sync::Mutex::new(Vec::new());
+
 fn main() {
     let ctx = Ctx::from_args("C10", "model_checking");
     if let Some(case) = ctx.replay_case() {
@@ -247,6 +250,7 @@ fn main() {
     if check_pairs(&ctx, &u_build).digest != s_build.digest { machinery_error("determinism replay diverged"); }
 
     let all = s_main.clone().merge(s_build.clone()).merge(s_wide.clone()).merge(s_hyph).merge(s_tri.clone()).merge(s_mt.clone()).merge(s_names);
+    for (t, e) in REJECTED.lock().unwrap().iter() { ctx.violation("universe_member_rejected", format!("{t:?}"), json!({"kind":"member","text":t}), format!("the real parser rejects this spelling of a valid version: {e}")); }
     let mut cov = Coverage::default();
     cov.states = (u_main.len() + u_build.len() + u_wide.len() + u_hyph.len()) as u64;
     cov.transitions = all.get("pairs");
